@@ -1,255 +1,1402 @@
 """C11 - regex, partial-name and batched specifications equal their expansions (relational, by construction).
 
-  C11.R1  the regex -> names conversion dominates every graph query; queries, detectors and message generators read the converted
-          requirement, never the raw one; both sides are converted
-  C11.R2  a regex contributes exactly {ModuleNameFilter(m) : m in arch.modules, re.match(pattern, m)}; ImpossibleMatch precedes a verdict
-  C11.R3  the deprecated partial-name form is ModuleNameRegexFilter(convert_partial_match_to_regex(name)) per element
-  C11.R4  batch = conjunction: per (subject, object) pair resp. per subject computations are independent (no shared state, no dropped key)
+Every rule works on the *inlined view* (core/inline_stmt.py) of a public entry point and on role-based anchors, never on private
+names, local variable names or one loop idiom:
+
+  C11.R1  entry = the matcher method Rule.assert_applies runs on the evaluable.  In its view: ModuleNameConverter.convert runs
+          unconditionally before every graph query, against the evaluable being queried, on the requirement as given to the
+          constructor; the queries, and the detectors / message generators built outside the view, receive values whose provenance
+          (c11_prov.py) is this evaluation's conversion of both sides - never pre-state (raw or stale).  State kept between
+          evaluations is only a violation if Rule.assert_applies does not create a fresh matcher per call.
+  C11.R2  view of ModuleNameConverter.convert, described as collections (c11_coll.py): result[0] is exactly
+          {ModuleNameFilter(m) | m in arch.modules, f in modules, f regex, re.match(f.identifier, m)} + {f | f in modules, f not regex};
+          no early exit from the scan; ImpossibleMatch is raised iff the set of never-matched patterns (all patterns minus matched
+          ones, in any of its spellings) is non-empty, and the test dominates the return.
+  C11.R3  view of Rule.have_name_containing: the list stored into the rule's state is
+          {ModuleNameRegexFilter(name=convert_partial_match_to_regex(n)) | n in names}, unfiltered, stored on every path.
+  C11.R4  views of the three public queries of EvaluableArchitecture: the result has one entry per element of the given collections
+          (no filter), each value is a graph search over (graph, own key, whole given collections) only, nothing is carried from one
+          key to the next, every entry is stored under its own key unconditionally.
 """
 
 from __future__ import annotations
 
 import ast
+from dataclasses import dataclass
 
-from core.guards import atom, atoms_of, f_not, implies
-from core.loader import AnalysisError, FuncInfo, Repo, ancestors, calls_in, header, norm, own_nodes, parent
+from core.guards import f_or, implies
+from core.inline_stmt import inline_view
+from core.loader import AnalysisError, FuncInfo, Repo, ancestors, header, norm, own_nodes, parent
 from core.report import Result
 
-from .common import cfg_of, conds, dotted, guard_formula, truth, is_attr_call, loop_carried, loops_around, stmt_of, types_of, where
-from .tables import EVAL_GRAPH, MATCHER, RULE, SEARCHES
+from .c11_coll import Collections, flatten
+from .c11_lib import Fn, class_view, names_loaded, show
+from .c11_prov import Provenance, field_key
+from .common import assigned_names, cfg_of, dotted, guard_formula, reachable_funcs, stmt_of, types_of, upward_exposed, where
+from .tables import EXPLICIT_QUERY, MATCHER, MODREQ, OTHER_QUERIES, RULE, SEARCHES
+
+EVAL_ARCH = "pytestarch.eval_structure.evaluable_architecture"
 
 CONVERTER = "pytestarch.eval_structure.module_name_converter"
 
 
+# --------------------------------------------------------------------------------------------------------------- C11.R1
+
+CONVERT_FQ = f"{CONVERTER}::ModuleNameConverter.convert"
+QUERIES = (EXPLICIT_QUERY, *OTHER_QUERIES)
+
+
+def _matcher_classes(repo: Repo) -> list:
+    base = repo.cls(MATCHER, "RuleMatcher")
+    return [base, *repo.subclasses(base)]
+
+
+CONSUMER_MODULES = (
+    "pytestarch.rule_assessment.rule_check.rule_violation_detector",
+    "pytestarch.rule_assessment.rule_check.layer_rule_violation_detector",
+    "pytestarch.rule_assessment.rule_check.rule_violations",
+    "pytestarch.rule_assessment.rule_check.behavior_requirement",
+    "pytestarch.rule_assessment.error_message.",
+)
+
+
+def _allow_r1(caller: FuncInfo, callee: FuncInfo) -> bool:
+    """The pipeline between the entry point and its consumers is inlined wherever it lives (matcher classes, the requirement
+    class, module-level helpers); the conversion itself stays a call, and the evaluable (graph, searches) and the consumers of the
+    converted requirement (detectors, message generators, violation records) are not part of the pipeline under test."""
+    if callee.fq == CONVERT_FQ:
+        return False
+    name = callee.module.name
+    if name.startswith("pytestarch.eval_structure"):
+        return False
+    return not any(name == m or (m.endswith(".") and name.startswith(m)) for m in CONSUMER_MODULES)
+
+
+def _members(t) -> list:
+    return list(t[1]) if t[0] == "union" else [t]
+
+
+def _carrying(repo: Repo, t) -> bool:
+    """Static type of something that carries module filters: a ModuleRequirement or a collection of ModuleFilter."""
+    for m in _members(t):
+        if m[0] == "cls":
+            ci = repo.classes.get(m[1])
+            if ci is not None and (ci.name == "ModuleRequirement" or any(c.name == "ModuleFilter" for c in repo.mro(ci))):
+                return True
+        if m[0] == "b" and m[1] in ("list", "seq", "set", "iter", "tuple", "frozenset") and m[2]:
+            if any(_carrying(repo, x) for x in m[2] if isinstance(x, tuple)):
+                return True
+    return False
+
+
+def _scalar_type(t) -> bool:
+    ms = _members(t)
+    return bool(ms) and all(m[0] == "b" and m[1] in ("bool", "str", "int", "none", "float") for m in ms)
+
+
+def _allow_outside_matcher(caller: FuncInfo, callee: FuncInfo) -> bool:
+    repo = callee.module.repo  # type: ignore[attr-defined]
+    return callee.cls is None or callee.cls not in _matcher_classes(repo)
+
+
+def _entry_points(repo: Repo) -> tuple[list[FuncInfo], bool, str]:
+    """(methods of the matcher hierarchy that Rule.assert_applies runs on the evaluable, is the matcher provably created anew for
+    every assert_applies call, why not)."""
+    T = types_of(repo)
+    rule = repo.cls(RULE, "Rule")
+    aa = rule.methods.get("assert_applies")
+    if aa is None:
+        raise AnalysisError("Rule.assert_applies not found")
+    view = inline_view(repo, aa, T, allow=_allow_outside_matcher)
+    fn = Fn(repo, view)
+    classes = _matcher_classes(repo)
+    ev = view.param_names[1] if len(view.param_names) > 1 else ""
+
+    def creates_matcher(v: ast.AST | None, deep: bool = True) -> bool:
+        if not isinstance(v, ast.Call):
+            return False
+        cs, how = fn.callees(v)
+        if bool(cs) and all(f.cls in classes and f.name in ("__init__", "__post_init__") for f in cs):
+            return True
+        if deep and parent(v) is not None:  # a private factory whose body only builds the matcher
+            x = fn.expand(v)
+            return x is not v and creates_matcher(x, False)
+        return False
+
+    def is_matcher(e: ast.AST) -> bool:
+        if any(m[0] == "cls" and repo.classes.get(m[1]) in classes for m in _members(fn.type_of(e))):
+            return True
+        if isinstance(e, ast.Name):
+            defs = fn.reaching(e.id, e)
+            return bool(defs) and any(d.kind == "assign" and (creates_matcher(d.value) or (d.value is not None and is_matcher(d.value))) for d in defs)
+        return creates_matcher(e)
+
+    entries: list[FuncInfo] = []
+    fresh, why = True, ""
+    found = False
+    for c in own_nodes(view.node):
+        if not isinstance(c, ast.Call) or not isinstance(c.func, ast.Attribute):
+            continue
+        if not any(isinstance(a, ast.Name) and a.id == ev for a in [*c.args, *[k.value for k in c.keywords]]):
+            continue
+        recv = c.func.value
+        if not is_matcher(recv):
+            continue
+        impls = [f for f in repo.implementations(classes[0], c.func.attr) if not f.is_abstract]
+        if not impls:
+            continue
+        found = True
+        for f in impls:
+            if f not in entries:
+                entries.append(f)
+        if not isinstance(recv, ast.Name):
+            if not creates_matcher(recv):
+                fresh, why = False, f"the matcher is kept in `{norm(recv)}` of the rule object and used again"
+            continue
+        for d in fn.reaching(recv.id, recv):
+            if not (d.kind == "assign" and creates_matcher(d.value)):
+                fresh, why = False, f"the matcher `{recv.id}` is `{norm(d.value) if d.value is not None else d.kind}`, not an object created for this call"
+    if not found:
+        raise AnalysisError("Rule.assert_applies: the call that runs the rule matcher on the evaluable was not found")
+    return entries, fresh, why
+
+
+def _query_call(fn: Fn, c: ast.Call, ev: str) -> bool:
+    """Is `c` a call of one of the three public graph queries on the evaluable parameter (directly or through a local alias)?"""
+
+    def is_ev(e: ast.AST) -> bool:
+        if isinstance(e, ast.Name) and e.id == ev:
+            return True
+        if isinstance(e, ast.Name) and parent(e) is not None:  # local alias of the evaluable
+            x = fn.expand(e)
+            return isinstance(x, ast.Name) and x.id == ev
+        return False
+
+    def is_q(e: ast.AST) -> bool:
+        return isinstance(e, ast.Attribute) and e.attr in QUERIES and is_ev(e.value)
+
+    if is_q(c.func):
+        return True
+    if isinstance(c.func, ast.Name):
+        defs = fn.reaching(c.func.id, c.func)
+        return bool(defs) and all(d.kind == "assign" and d.value is not None and (is_q(d.value) or (isinstance(d.value, ast.IfExp) and is_q(d.value.body) and is_q(d.value.orelse))) for d in defs)
+    if not isinstance(c.func, ast.Attribute):
+        # a query method selected by an expression: (a if c else b)(...), {flag: q1, ...}[flag](...)
+        return any(is_q(x) for x in ast.walk(c.func))
+    return False
+
+
+def _requirement_sides(repo: Repo) -> tuple[dict[str, set[str]], list[str]]:
+    """accessor (property / field of ModuleRequirement) -> constructor parameters whose value it may return; the two
+    filter-list constructor parameters."""
+    req = repo.cls(MODREQ, "ModuleRequirement")
+    init = req.methods.get("__init__")
+    if init is None:
+        raise AnalysisError("ModuleRequirement.__init__ not found")
+    T = types_of(repo)
+    sides = [p.arg for p in init.params[1:] if p.annotation is not None and _carrying(repo, T.ann(init.module, p.annotation))]
+    fields: dict[str, set[str]] = {}
+    for _ in range(3):
+        for n in own_nodes(init.node):
+            pairs = []
+            if isinstance(n, ast.Assign):
+                for t in n.targets:
+                    if isinstance(t, ast.Tuple) and isinstance(n.value, ast.Tuple) and len(t.elts) == len(n.value.elts):
+                        pairs += list(zip(t.elts, n.value.elts))
+                    else:
+                        pairs.append((t, n.value))
+            elif isinstance(n, ast.AnnAssign) and n.value is not None:
+                pairs.append((n.target, n.value))
+            for t, v in pairs:
+                if isinstance(t, ast.Attribute) and isinstance(t.value, ast.Name) and t.value.id == "self":
+                    got = fields.setdefault(t.attr, set())
+                    for x in ast.walk(v):
+                        if isinstance(x, ast.Name) and x.id in sides:
+                            got.add(x.id)
+                        if isinstance(x, ast.Attribute) and isinstance(x.value, ast.Name) and x.value.id == "self" and x.attr in fields:
+                            got |= fields[x.attr]
+    acc: dict[str, set[str]] = {k: set(v) for k, v in fields.items()}
+    for name, m in req.methods.items():
+        if m.is_property:
+            got: set[str] = set()
+            for r in own_nodes(m.node):
+                if isinstance(r, ast.Return) and r.value is not None:
+                    for x in ast.walk(r.value):
+                        if isinstance(x, ast.Attribute) and isinstance(x.value, ast.Name) and x.value.id == "self":
+                            got |= fields.get(x.attr, set())
+            acc[name] = got
+    return acc, sides
+
+
+def _stores_of_field(repo: Repo, field_name: str) -> list[tuple[FuncInfo, ast.AST]]:
+    out = []
+    for ci in _matcher_classes(repo):
+        for m in [*ci.methods.values(), *ci.extra_methods]:
+            for n in own_nodes(m.node):
+                if isinstance(n, ast.Attribute) and isinstance(n.ctx, ast.Store) and n.attr == field_name and isinstance(n.value, ast.Name) and n.value.id == "self":
+                    out.append((m, n))
+    return out
+
+
+def _always_run(fn: Fn, call: ast.AST) -> ast.AST:
+    """The statement whose execution implies that `call` is executed: its own statement, or the outermost enclosing `for` over a
+    non-empty literal tuple / list (such a loop body runs at least once)."""
+    node = stmt_of(call)
+    cur = node
+    for a in ancestors(node):
+        if isinstance(a, (ast.For, ast.AsyncFor)):
+            it = fn.expand(a.iter)
+            if isinstance(it, (ast.Tuple, ast.List)) and it.elts and cur in a.body and not a.orelse:
+                node = a
+                cur = a
+                continue
+            break
+        if isinstance(a, (ast.While, ast.If, ast.Try, ast.With, ast.FunctionDef, ast.AsyncFunctionDef)):
+            break
+        cur = a
+    return node
+
+
+def _ctor_none_fields(repo: Repo) -> set[str]:
+    """Fields of the matcher classes that the constructors set to the constant None."""
+    out: set[str] = set()
+    for ci in _matcher_classes(repo):
+        init = ci.methods.get("__init__")
+        if init is None:
+            continue
+        for n in own_nodes(init.node):
+            t, v = None, None
+            if isinstance(n, ast.Assign) and len(n.targets) == 1:
+                t, v = n.targets[0], n.value
+            elif isinstance(n, ast.AnnAssign):
+                t, v = n.target, n.value
+            if isinstance(t, ast.Attribute) and isinstance(t.value, ast.Name) and t.value.id == "self" and isinstance(v, ast.Constant) and v.value is None:
+                out.add(t.attr)
+    return out
+
+
 def run_r1(repo: Repo, res: Result) -> None:
     T = types_of(repo)
-    matcher = repo.cls(MATCHER, "RuleMatcher")
-    match = matcher.methods.get("match")
-    if match is None:
-        raise AnalysisError("RuleMatcher.match not found")
-    conv_calls = [c for c in calls_in(match.node) if is_attr_call(c, "_updated_module_requirements")]
-    find_calls = [c for c in calls_in(match.node) if is_attr_call(c, "_find_rule_violations")]
-    ok = len(conv_calls) == 1 and len(find_calls) == 1 and cfg_of(match).dominates(stmt_of(conv_calls[0]), stmt_of(find_calls[0])) and not conds(match, conv_calls[0])
-    res.add("C11.R1", f"{match.relpath}::{match.qualname}::conversion dominates evaluation", ok, "regexes are converted to module names before any graph query, unconditionally" if ok else "the regex conversion does not unconditionally precede the evaluation of the rule (a stale or missing conversion is evaluated)", where(match, match.node), kind="dominance")
-    upd = matcher.methods.get("_updated_module_requirements")
-    if upd is None:
-        raise AnalysisError("RuleMatcher._updated_module_requirements not found")
-    convs = [c for c in calls_in(upd.node) if is_attr_call(c, "convert")]
-    sides = sorted(norm(c.args[0]).split(".")[-1] for c in convs if c.args)
-    ok = sides == ["importees_as_specified_by_user", "importers_as_specified_by_user"] and all(not conds(upd, c) for c in convs) and all(len(c.args) == 2 and dotted(c.args[1]) == upd.param_names[1] for c in convs)
-    res.add("C11.R1", f"{upd.relpath}::{upd.qualname}::both sides converted", ok, "importers and importees are both converted against the evaluable being checked" if ok else f"conversion covers {sides} (conditions: {[norm(e) for c in convs for e, _ in conds(upd, c)]}): a side keeps its regex or is converted against another architecture", where(upd, upd.node), kind="structural")
-    early = [s for s in own_nodes(upd.node) if isinstance(s, ast.Return)]
-    res.add("C11.R1", f"{upd.relpath}::{upd.qualname}::no early return", not early, "conversion runs to completion on every call" if not early else f"`{header(early[0])}` skips the conversion (e.g. when a previous evaluation already converted)", where(upd, upd.node), kind="structural")
-    # raw requirement must not be read outside the conversion
-    n = 0
-    for cls in [matcher, *repo.subclasses(matcher)]:
-        for m in cls.methods.values():
-            if m.name in ("__init__",) or m is upd:
+    entries, fresh, why_not_fresh = _entry_points(repo)
+    if not entries:
+        raise AnalysisError("no implementation of the matcher entry point found")
+    accessors, sides = _requirement_sides(repo)
+    classes = _matcher_classes(repo)
+    none_fields = _ctor_none_fields(repo) if fresh else set()
+    nq = 0
+    concrete = [c for c in classes if not any(m.is_abstract and repo.lookup_method(c, m.name) is m for k in repo.mro(c) for m in k.methods.values())] or classes[:1]
+    reported: dict[str, bool] = {}
+
+    class Dedupe:
+        """The same construct analysed for several concrete matcher classes is reported once per verdict."""
+
+        def add(self, rule, construct, ok, detail="", where="", nontrivial=True, kind="structural"):
+            if reported.get(construct) == bool(ok):
+                return None
+            if construct in reported:
+                construct = f"{construct} [as {cur.name}]"
+            reported[construct] = bool(ok)
+            return res_.add(rule, construct, ok, detail, where, nontrivial, kind)
+
+        def undecide(self, rule, construct, detail, where=""):
+            if not any(u["construct"] == construct for u in res_.undecided):
+                res_.undecide(rule, construct, detail, where)
+
+        def observe(self, text):
+            if text not in res_.observations:
+                res_.observe(text)
+
+    res_ = res
+    res = Dedupe()
+    for cur, entry0 in [(c, e) for c in concrete for e in entries]:
+        entry = repo.lookup_method(cur, entry0.name) or entry0
+        view = class_view(repo, entry, cur, allow=_allow_r1, max_depth=4)
+        fn = Fn(repo, view)
+        cfg = cfg_of(view)
+        ev = next((p.arg for p in view.params[1:] if p.annotation is not None and any(m[0] == "cls" and m[1].endswith(".EvaluableArchitecture") for m in _members(T.ann(view.module, p.annotation)))), view.param_names[1] if len(view.param_names) > 1 else "")
+        calls = [c for c in own_nodes(view.node) if isinstance(c, ast.Call)]
+        convs = [c for c in calls if any(f.fq == CONVERT_FQ for f in fn.callees(c)[0])]
+        queries = [c for c in calls if _query_call(fn, c, ev)]
+        base = f"{entry.relpath}::{entry.qualname}::"
+        if not queries:
+            raise AnalysisError(f"{entry.fq}: no graph query on `{ev}` found in the inlined view (rule would pass vacuously)")
+        nq += len(queries)
+        # ---- provenance: which conversion (of which side) does a value derive from; `pre:` = state from before this evaluation
+        ids = {id(c): i for i, c in enumerate(convs)}
+
+        def source(call: ast.Call, argtags: list):
+            if id(call) not in ids:
+                return None
+            out = {f"conv:{ids[id(call)]}"}
+            for t in (argtags[0] if argtags else ()):
+                if t.startswith("acc:"):
+                    out |= {f"cside:{p}" for p in accessors.get(t[4:], ())}
+            return out
+
+        def attr_tags(a: ast.Attribute):
+            if a.attr in accessors and any(m[0] == "cls" and m[1].endswith(".ModuleRequirement") for m in _members(fn.type_of(a.value))):
+                return {f"acc:{a.attr}"}
+            return None
+
+        assumed: list[str] = []
+
+        def assume(st_if: ast.If, state: dict):
+            # a matcher that is created for every assert_applies call enters with its constructor state: `self.f is None` holds
+            # for a field the constructor sets to None as long as nothing was stored into it on the way
+            if not fresh:
+                return None
+            lits = flatten([(st_if.test, True)])
+            if len(lits) != 1:
+                return None
+            lit, pol = lits[0]
+            if isinstance(lit, ast.Compare) and len(lit.ops) == 1 and isinstance(lit.ops[0], ast.Is) and isinstance(lit.comparators[0], ast.Constant) and lit.comparators[0].value is None:
+                fk = field_key(lit.left) if isinstance(lit.left, ast.Attribute) and isinstance(lit.left.value, ast.Name) else None
+                if fk is not None and fk[5:] in none_fields and state.get(fk, {f"pre:{fk}"}) == {f"pre:{fk}"}:
+                    if norm(st_if.test) not in assumed:
+                        assumed.append(norm(st_if.test))
+                    return pol
+            return None
+
+        def passes(call: ast.Call) -> bool:
+            # constructors (objects carry what they are built from) and order / duplicate-only copies hand their arguments on
+            if isinstance(call.func, ast.Name) and call.func.id in ("list", "tuple", "set", "frozenset", "sorted", "cast", "iter", "reversed"):
+                return True
+            cs, how = fn.callees(call)
+            return how == "ctor" or (bool(cs) and all(f.name in ("__init__", "__post_init__") for f in cs))
+
+        prov = Provenance(fn, source, lambda a: _scalar_type(fn.type_of(a)), attr_tags, assume, passes)
+        # ---- (1) the conversion runs on every evaluation, before any query, against the evaluable being queried
+        problems: list[tuple[str, ast.AST, bool]] = []  # (text, node, depends on matcher state)
+        if not convs:
+            problems.append(("the regex filters are never converted to module names before the graph is queried", queries[0], True))
+        for c in convs:
+            lits = flatten(fn.conds_all(c))
+            if lits:
+                state = any(isinstance(x, ast.Name) and x.id == "self" for l, _ in lits for x in ast.walk(l))
+                problems.append((f"the conversion `{norm(c, 60)}` only runs if `{' and '.join(('' if p else 'not ') + norm(l, 50) for l, p in lits)}`", c, state))
+            for q in queries:
+                if not cfg.dominates(_always_run(fn, c), stmt_of(q)):
+                    problems.append((f"the query `{norm(q, 50)}` can be reached without the conversion `{norm(c, 50)}`", q, True))
+                    break
+        for c in convs:
+            arg = c.args[1] if len(c.args) > 1 else next((k.value for k in c.keywords if k.arg not in (None, "modules")), None)
+            if not (isinstance(arg, ast.Name) and arg.id == ev and all(d.kind == "param" for d in fn.reaching(ev, arg))):
+                problems.append((f"`{norm(c, 70)}` converts against `{norm(arg) if arg is not None else '?'}`, not against the evaluable `{ev}` being checked", c, False))
+        # the input of the conversion is the requirement as specified, not something an earlier evaluation left behind
+        for c in convs:
+            inp = c.args[0] if c.args else next((k.value for k in c.keywords), None)
+            for t in sorted(prov.of(inp)) if inp is not None else []:
+                if not t.startswith("pre:self."):
+                    continue
+                late = [(m, n) for m, n in _stores_of_field(repo, t[9:]) if m.name != "__init__"]
+                if late:
+                    m, n = late[0]
+                    problems.append((f"`{t[4:]}`, from which the conversion reads the filters as specified by the user, is overwritten in {m.qualname} (`{header(stmt_of(n))[:70]}`): a later evaluation converts what an earlier one left behind", c, True))
+        key = base + "conversion dominates evaluation"
+        wrong_target = [p for p in problems if not p[2] and "converts against" in p[0]]
+        stateful = [p for p in problems if p[2]]
+        other = [p for p in problems if p not in wrong_target and p not in stateful]
+        if wrong_target:
+            res.add("C11.R1", key, False, f"{wrong_target[0][0]}: the regexes are resolved against another architecture than the one evaluated", where(view, wrong_target[0][1]), kind="dominance")
+        elif not problems:
+            res.add("C11.R1", key, True, "regexes are converted to module names before any graph query, unconditionally, against the evaluable being checked", where(view, view.node), kind="dominance")
+        elif fresh and convs:
+            res.add("C11.R1", key, True, f"the conversion depends on the matcher's state ({problems[0][0]}), but Rule.assert_applies creates a new matcher for every call, so every evaluation starts from the constructor state", where(view, problems[0][1]), kind="dominance")
+        elif stateful:
+            extra = f" - and {why_not_fresh}, so the state survives between evaluations" if why_not_fresh else ""
+            res.add("C11.R1", key, False, f"{stateful[0][0]}{extra}: a stale or missing conversion is evaluated", where(view, stateful[0][1]), kind="dominance")
+        else:
+            res.undecide("C11.R1", key, other[0][0], where(view, other[0][1]))
+        # ---- (2) both sides are converted
+        conv_side: dict[int, set[str]] = {}
+        acc_text: dict[int, list[str]] = {}
+        for c in convs:
+            inp = c.args[0] if c.args else next((k.value for k in c.keywords), None)
+            accs = sorted(t[4:] for t in prov.of(inp) if t.startswith("acc:")) if inp is not None else []
+            acc_text[ids[id(c)]] = accs
+            conv_side[ids[id(c)]] = set().union(*[accessors.get(a, set()) for a in accs]) if accs else set()
+        covered = set().union(*conv_side.values()) if conv_side else set()
+        all_accs = sorted({a for v in acc_text.values() for a in v})
+        distinct = len(all_accs) >= min(2, len(sides))
+        ok = bool(convs) and set(sides) <= covered and distinct
+        if convs and any(not v for v in conv_side.values()):
+            res.undecide("C11.R1", base + "both sides converted", f"the input `{norm(convs[[i for i, v in conv_side.items() if not v][0]].args[0], 60) if convs[0].args else '?'}` of a conversion is not recognised as an accessor of the module requirement", where(view, convs[0]))
+        else:
+            res.add("C11.R1", base + "both sides converted", ok, "importers and importees are both converted against the evaluable being checked" if ok else f"the conversion covers {all_accs} only: a side ({', '.join(sorted(set(sides) - covered)) or 'one of ' + ', '.join(sides)}) keeps its regex filters or is converted twice", where(view, convs[0] if convs else view.node), kind="structural")
+        # ---- (3) the queries receive converted filters only
+        for q in queries:
+            args = [*q.args, *[k.value for k in q.keywords]]
+            bad = ""
+            unsure = ""
+            got: set[str] = set()
+            for a in args:
+                t = prov.of(a)
+                pre = sorted(x for x in t if x.startswith("pre:"))
+                got |= {x[6:] for x in t if x.startswith("cside:")}
+                flt = sorted(x for x in t if x.startswith("via:filter:"))
+                via = sorted(x for x in t if x.startswith("via:") and not x.startswith("via:filter:"))
+                if pre:
+                    bad = bad or f"`{norm(a, 60)}` is read from `{pre[0][4:]}` as it was before this evaluation's conversion (the un-converted or a stale requirement)"
+                elif not any(x.startswith("conv:") for x in t):
+                    bad = bad or f"`{norm(a, 60)}` does not come from the conversion"
+                elif flt:
+                    bad = bad or f"the converted filters are filtered (`{flt[0][11:]}`) before they reach `{norm(a, 60)}`: modules the regex matches are dropped from the rule"
+                elif via:
+                    unsure = unsure or f"the converted filters pass through `{via[0][4:]}` before they reach `{norm(a, 60)}` - not recognised as an unchanged hand-over"
+            if not bad and convs and not set(sides) <= got:
+                bad = f"only the conversion of {sorted(got)} reaches the query"
+            if unsure and not bad:
+                res.undecide("C11.R1", repo.key(view, stmt_of(q)) + f" [{norm(q.func, 80)}]", unsure, where(view, q))
                 continue
-            for node in own_nodes(m.node):
-                if isinstance(node, ast.Attribute) and node.attr == "_module_requirement" and isinstance(node.ctx, ast.Load):
-                    n += 1
-                    res.add("C11.R1", repo.key(m, stmt_of(node)) + " [raw requirement]", False, f"{m.qualname} reads the un-converted requirement `{norm(parent(node))}`: regex filters reach a graph query / detector / message generator", where(m, node), kind="flow")
-                if isinstance(node, ast.Attribute) and node.attr == "_updated_module_requirement" and isinstance(node.ctx, ast.Load):
-                    n += 1
-                    res.add("C11.R1", repo.key(m, stmt_of(node)) + f" [{norm(parent(node), 80)}]", True, "reads the converted requirement", where(m, node), kind="flow")
-    res.floor("C11.R1", 6, n)
+            res.add("C11.R1", repo.key(view, stmt_of(q)) + f" [{norm(q.func, 80)}]", not bad, "queries the graph with the converted requirement" if not bad else (bad if "filtered" in bad else f"{bad}: regex filters reach a graph query"), where(view, q), kind="flow")
+        # ---- (4) consumers outside the view (detectors, message generators) read the converted requirement
+        seen: set[tuple[str, str]] = set()
+        for c in calls:
+            if not (isinstance(c.func, ast.Attribute) and isinstance(c.func.value, ast.Name) and c.func.value.id == "self"):
+                continue
+            roots = [f for f in fn.callees(c)[0] if f.cls in classes]
+            if not roots:
+                continue
+            for m in reachable_funcs(repo, roots, byname=False):
+                if m.cls not in classes:
+                    continue
+                for node in own_nodes(m.node):
+                    if not (isinstance(node, ast.Attribute) and isinstance(node.ctx, ast.Load) and isinstance(node.value, ast.Name) and node.value.id == "self"):
+                        continue
+                    if not _carrying(repo, T.expr(m, node)):
+                        continue
+                    up = parent(node)
+                    if isinstance(up, ast.Attribute) and _scalar_type(T.expr(m, up)):
+                        continue  # only a flag of the requirement is read
+                    t = prov.field_at(stmt_of(c), node.attr)
+                    pre = [x for x in t if x.startswith("pre:")]
+                    flt = sorted(x for x in t if x.startswith("via:filter:"))
+                    okr = not pre and not flt and any(x.startswith("conv:") for x in t)
+                    k = (m.fq, norm(stmt_of(node)) + node.attr)
+                    if k in seen and okr:
+                        continue
+                    seen.add(k)
+                    nq += 1
+                    shown = up if isinstance(up, ast.Attribute) else node
+                    res.add("C11.R1", repo.key(m, stmt_of(node)) + f" [{norm(shown, 80)}]", okr, "reads the converted requirement" if okr else f"{m.qualname} reads `{norm(shown)}`, which at the call `{norm(c, 50)}` is {'the un-converted (or a stale) requirement' if pre else ('the conversion result filtered by `' + flt[0][11:] + '`') if flt else 'not the result of the conversion'}: the detector / message generator does not judge the converted requirement", where(m, node), kind="flow")
+        # consumers constructed inside the view (their factory was inlined for this concrete class)
+        for c in calls:
+            cs_, how_ = fn.callees(c)
+            if not cs_ or not all(f.name in ("__init__", "__post_init__") and any(f.module.name == m or (m.endswith(".") and f.module.name.startswith(m)) for m in CONSUMER_MODULES) for f in cs_):
+                continue
+            for a in [*c.args, *[k.value for k in c.keywords]]:
+                if not _carrying(repo, fn.type_of(a)):
+                    continue
+                t = prov.of(a)
+                pre = sorted(x for x in t if x.startswith("pre:"))
+                flt = sorted(x for x in t if x.startswith("via:filter:"))
+                okr = not pre and not flt and any(x.startswith("conv:") for x in t)
+                nq += 1
+                res.add("C11.R1", repo.key(view, stmt_of(c)) + f" [{norm(a, 80)}]", okr, "is built from the converted requirement" if okr else f"`{norm(c, 60)}` receives `{norm(a, 50)}`, which is {'read from `' + pre[0][4:] + '` as it was before this evaluation (the un-converted or a stale requirement)' if pre else ('the conversion result filtered by `' + flt[0][11:] + '`') if flt else 'not the result of the conversion'}: the detector / message generator does not judge the converted requirement", where(view, c), kind="flow")
+        if assumed:
+            res.observe(f"C11.R1: evaluated under the constructor state of a freshly created matcher ({', '.join(assumed)})")
+    res_.floor("C11.R1", 1, nq)  # at least one graph query was found and judged (a view without queries is an ANALYSIS-ERROR above)
+
+
+# --------------------------------------------------------------------------------------------------------------- C11.R2
+
+
+def _allow_r2(caller: FuncInfo, callee: FuncInfo) -> bool:
+    # the graph searches called for their side effects only (sub modules of a match) are not part of the conversion
+    return callee.module.name != SEARCHES
+
+
+@dataclass
+class RegexTest:
+    kind: str  # match | fullmatch | search | ...
+    pattern: ast.AST | None
+    subject: ast.AST | None
+    flags: bool
+    call: ast.AST
+
+
+def regex_test(fn: Fn, e: ast.AST) -> RegexTest | None:
+    """`re.match(p, s)`, `re.compile(p).match(s)` (and the fullmatch / search variants) inside the expression `e`."""
+    for c in ast.walk(e):
+        if not isinstance(c, ast.Call):
+            continue
+        name = fn.lib_name(c.func) if isinstance(c.func, (ast.Name, ast.Attribute)) else ""
+        if name in ("re.match", "re.fullmatch", "re.search"):
+            pat = c.args[0] if c.args else next((k.value for k in c.keywords if k.arg == "pattern"), None)
+            sub = c.args[1] if len(c.args) > 1 else next((k.value for k in c.keywords if k.arg == "string"), None)
+            flags = len(c.args) > 2 or any(k.arg == "flags" for k in c.keywords)
+            if isinstance(pat, ast.Call) and fn.lib_name(pat.func) == "re.compile":
+                flags = flags or len(pat.args) > 1 or bool(pat.keywords)
+                pat = pat.args[0] if pat.args else None
+            return RegexTest(name.split(".")[1], pat, sub, flags, c)
+        if isinstance(c.func, ast.Attribute) and c.func.attr in ("match", "fullmatch", "search") and isinstance(c.func.value, ast.Call) and fn.lib_name(c.func.value.func) == "re.compile":
+            comp = c.func.value
+            flags = len(comp.args) > 1 or bool(comp.keywords) or len(c.args) > 1 or bool(c.keywords)
+            return RegexTest(c.func.attr, comp.args[0] if comp.args else None, c.args[0] if c.args else None, flags, c)
+    return None
+
+
+def _success_polarity(lit: ast.AST, call: ast.AST) -> bool | None:
+    """Polarity of the literal `lit` under which the match object `call` exists: `m` -> True, `m is None` -> False."""
+    if lit is call:
+        return True
+    if isinstance(lit, ast.Compare) and len(lit.ops) == 1 and lit.left is call and isinstance(lit.ops[0], (ast.Is, ast.Eq)) and isinstance(lit.comparators[0], ast.Constant) and lit.comparators[0].value is None:
+        return False
+    return None
+
+
+def _is_regex_flag(lit: ast.AST, var: str) -> bool:
+    if isinstance(lit, ast.Attribute) and lit.attr == "identifier_is_regex" and isinstance(lit.value, ast.Name) and lit.value.id == var:
+        return True
+    if isinstance(lit, ast.Call) and isinstance(lit.func, ast.Name) and lit.func.id == "isinstance" and len(lit.args) == 2 and isinstance(lit.args[0], ast.Name) and lit.args[0].id == var and "ModuleNameRegexFilter" in norm(lit.args[1]):
+        return True
+    return False
+
+
+def _is_identifier_of(e: ast.AST | None, var: str) -> bool:
+    return isinstance(e, ast.Attribute) and e.attr in ("identifier", "name") and isinstance(e.value, ast.Name) and e.value.id == var
+
+
+@dataclass
+class Matched:
+    ok: bool
+    why: str = ""
+    subject: str = ""
+    pattern: str = ""
+
+
+def _first_time_flag(fn: Fn, lit: ast.AST) -> bool:
+    """`if x is None: x = <new>; ...` inside an inner loop with `x = None` set at the start of every pass of the enclosing loop:
+    the block runs for the first inner element that gets there - once per outer element if any inner element qualifies."""
+    if not (isinstance(lit, ast.Compare) and len(lit.ops) == 1 and isinstance(lit.ops[0], ast.Is) and isinstance(lit.comparators[0], ast.Constant) and lit.comparators[0].value is None and isinstance(lit.left, ast.Name)):
+        return False
+    ctx, orig = fn.ctx_of(lit.left)
+    if ctx is not fn.fi or parent(orig) is None:
+        return False
+    test_if = next((a for a in ancestors(orig) if isinstance(a, ast.If) and any(n is orig for n in ast.walk(a.test))), None)
+    if test_if is None:
+        return False
+    defs = fn.reaching(orig.id, orig)
+    inits = [d for d in defs if d.kind == "assign" and isinstance(d.value, ast.Constant) and d.value.value is None]
+    sets = [d for d in defs if d not in inits]
+    if len(inits) != 1 or not sets or any(d.kind != "assign" for d in sets):
+        return False
+    inside = {id(n) for st in test_if.body for n in ast.walk(st)}
+    if any(id(d.stmt) not in inside for d in sets):
+        return False
+    loops_if = [a for a in ancestors(test_if) if isinstance(a, (ast.For, ast.AsyncFor))]
+    loops_init = [a for a in ancestors(inits[0].stmt) if isinstance(a, (ast.For, ast.AsyncFor))]
+    # the reset happens in a loop that encloses the loop of the test (reset once per outer element)
+    return bool(loops_if) and bool(loops_init) and loops_init[0] in loops_if[1:] and loops_if[0] is not loops_init[0]
+
+
+def matched_pair(fn: Fn, c, modules_param: str, arch_param: str, membership_of: str | None = None, once_per_module: bool = False) -> Matched:
+    """Is the contribution made exactly once for every pair (regex filter f of `modules`, module m of `arch.modules`) with
+    re.match(f.identifier, m)?  `membership_of`: a literal `f.identifier in <that name>` is tolerated (remove idiom)."""
+    subj = [b for b in c.binders if b.root and isinstance(b.source, ast.Attribute) and b.source.attr == "modules" and dotted(b.source.value) == arch_param and len(b.names) == 1]
+    pats = [b for b in c.binders if b.root and dotted(b.source) == modules_param and len(b.names) == 1]
+    if len(c.binders) != 2 or len(subj) != 1 or len(pats) != 1:
+        rng = ", ".join(f"{norm(b.target)} in {show(b.source, 50)}" for b in c.binders) or "nothing"
+        return Matched(False, f"it ranges over ({rng}) instead of every (module of `{arch_param}.modules`, filter of `{modules_param}`) pair")
+    sv, pv = subj[0].names[0], pats[0].names[0]
+    lits = flatten(c.conds)
+    flag = test = False
+    for lit, pol in lits:
+        if _is_regex_flag(lit, pv):
+            if not pol:
+                return Matched(False, "it is made for filters that are *not* regex filters")
+            flag = True
+            continue
+        rt = regex_test(fn, lit)
+        if rt is not None:
+            succ = _success_polarity(lit, rt.call)
+            if succ is None:
+                return Matched(False, f"the use of the match result in `{show(lit)}` is not recognised")
+            if succ != pol:
+                return Matched(False, f"it is made when the pattern test `{show(rt.call)}` *fails*")
+            if rt.kind != "match" or rt.flags:
+                return Matched(False, f"the pattern test uses re.{rt.kind}{' with flags' if rt.flags else ''} instead of re.match(pattern, name)")
+            if not _is_identifier_of(rt.pattern, pv) or not (isinstance(rt.subject, ast.Name) and rt.subject.id == sv):
+                return Matched(False, f"the pattern test is `{show(rt.call)}`, not re.match(<regex filter>.identifier, <module name>)")
+            test = True
+            continue
+        if not pol and c.kind == "add" and c.acc and isinstance(lit, ast.Compare) and isinstance(lit.ops[0], ast.In) and dotted(lit.comparators[0]) == c.acc and c.elt is not None and norm(lit.left) == norm(c.elt):
+            continue  # `if e not in acc: acc.append(e)` - duplicates are not added twice
+        if once_per_module and pol and _first_time_flag(fn, lit):
+            continue  # added for the first matching pattern of a module only: the same *set* of modules
+        if membership_of is not None and pol and isinstance(lit, ast.Compare) and isinstance(lit.ops[0], ast.In) and _is_identifier_of(lit.left, pv) and dotted(lit.comparators[0]) == membership_of:
+            continue
+        return Matched(False, f"it additionally depends on `{'' if pol else 'not '}{show(lit)}`")
+    if not test:
+        return Matched(False, "it does not depend on the pattern test re.match(pattern, name)")
+    if not flag:
+        return Matched(False, "it is also made for filters that are not regex filters (their names are used as patterns)")
+    return Matched(True, "", sv, pv)
+
+
+def _full(co: Collections, node: ast.AST):
+    """Normalised description with `if <collection>:` conditions turned into binders."""
+    d = co.normalise(co.exists_intro(co.describe(node)))
+    # conditions that only appear once sources are composed (an element was registered `if <its own match list>:`)
+    return co.normalise(co.exists_intro(d))
+
+
+def _tuple_parts(fn: Fn, e: ast.AST) -> list[ast.AST] | None:
+    if isinstance(e, ast.Tuple):
+        return list(e.elts)
+    if isinstance(e, ast.Name):
+        defs = fn.reaching(e.id, e)
+        if len(defs) == 1 and defs[0].kind == "assign" and isinstance(defs[0].value, ast.Tuple):
+            return list(defs[0].value.elts)
+    return None
 
 
 def run_r2(repo: Repo, res: Result) -> None:
+    T = types_of(repo)
     conv = repo.cls(CONVERTER, "ModuleNameConverter")
     f = conv.methods.get("convert")
     if f is None:
         raise AnalysisError("ModuleNameConverter.convert not found")
-    arch = f.param_names[2]
-    loops = [l for l in own_nodes(f.node) if isinstance(l, ast.For) and norm(l.iter) == f"{arch}.modules"]
-    ok = len(loops) == 1 and not conds(f, loops[0]) and not any(isinstance(x, (ast.Break, ast.Return)) for x in ast.walk(loops[0]))
-    res.add("C11.R2", f"{f.relpath}::{f.qualname}::all modules scanned", ok, "every module of the architecture is tested against every pattern" if ok else "the scan over `arch.modules` is conditional or can be left early: a regex no longer stands for all modules it matches", where(f, f.node), kind="structural")
-    if not loops:
+    view = inline_view(repo, f, T, allow=_allow_r2)
+    fn = Fn(repo, view)
+    co = Collections(fn)
+    off = 0 if f.is_staticmethod else 1
+    modules_p, arch_p = view.param_names[off], view.param_names[off + 1]
+    base = f"{f.relpath}::{f.qualname}::"
+    rets = [s for s in own_nodes(view.node) if isinstance(s, ast.Return) and s.value is not None]
+    parts = _tuple_parts(fn, rets[0].value) if len(rets) == 1 else None
+    if len(rets) > 1:
+        # several exits: at least none of them may bypass the unmatched-pattern test
+        rs = [s for s in own_nodes(view.node) if isinstance(s, ast.Raise) and s.exc is not None and _raised_class(fn, s.exc).endswith(".ImpossibleMatch")]
+        cfg = cfg_of(view)
+        free = [r for r in rets if not any(cfg.dominates(_if_of(x), r) for x in rs)]
+        if free and not all(isinstance(e, (ast.List, ast.Tuple, ast.Dict)) and not getattr(e, "elts", getattr(e, "keys", None)) for e in (_tuple_parts(fn, free[0].value) or [free[0].value])):
+            res.add("C11.R2", base + "no-match raises", False, f"`{header(free[0])[:80]}` returns a conversion result without the unmatched-pattern test having been made: a regex matching nothing does not raise ImpossibleMatch before the conversion result is returned", where(view, free[0]), kind="dominance")
+            return
+    if parts is None or len(parts) != 2:
+        res.undecide("C11.R2", base + "result", "expected a single `return <filters>, <mapping>`", where(view, rets[0] if rets else view.node))
         return
-    outer = loops[0]
-    mvar = dotted(outer.target)
-    match_calls = [c for c in ast.walk(outer) if isinstance(c, ast.Call) and isinstance(c.func, ast.Attribute) and "match" in c.func.attr]
-    if len(match_calls) != 1:
-        raise AnalysisError(f"{f.fq}: pattern test inside the module scan not recognised")
-    mc = match_calls[0]
-    inner = [l for l in loops_around(mc, f.node) if isinstance(l, ast.For) and l is not outer]
-    if len(inner) != 1:
-        raise AnalysisError(f"{f.fq}: loop over the patterns not recognised")
-    pvar = dotted(inner[0].target)
-    ok = [dotted(a) for a in mc.args] == [pvar, mvar] and not any(isinstance(x, (ast.Break, ast.Continue)) for x in ast.walk(outer))
-    res.add("C11.R2", repo.key(f, stmt_of(mc)) + " [pattern x module]", ok, "test is (pattern, module name) for every pair" if ok else f"the pattern test is `{norm(mc)}` or the pair loop can skip pairs", where(f, mc), kind="structural")
-    # the patterns iterated are the identifiers of all regex filters
-    psrc = dotted(inner[0].iter)
-    assigns = [s for s in own_nodes(f.node) if isinstance(s, (ast.Assign, ast.AugAssign)) and any(dotted(t) == psrc for t in (s.targets if isinstance(s, ast.Assign) else [s.target]))]
-    ok = len(assigns) == 1 and "identifier" in norm(assigns[0].value) and not any(isinstance(g, ast.comprehension) and g.ifs for g in ast.walk(assigns[0].value))
-    res.add("C11.R2", f"{f.relpath}::{f.qualname}::patterns = all regex filters", ok, "every regex filter takes part in the scan" if ok else f"`{psrc}` is (re)assigned {len(assigns)} times / filtered: some regex filters are resolved outside the pattern test", where(f, inner[0]), kind="structural")
-    # accumulators: only changed under the match test
-    H = truth(f, mc)
-    rets = [s for s in own_nodes(f.node) if isinstance(s, ast.Return) and s.value is not None]
-    if len(rets) != 1 or not isinstance(rets[0].value, ast.Tuple):
-        raise AnalysisError(f"{f.fq}: expected a single `return converted, mapping`")
-    ret_names = {n.id for n in ast.walk(rets[0].value) if isinstance(n, ast.Name)}
-    acc = set()
-    for s in own_nodes(f.node):
-        if isinstance(s, ast.Assign) and isinstance(s.targets[0], ast.Name) and s.targets[0].id in ret_names:
-            acc |= {n.id for n in ast.walk(s.value) if isinstance(n, ast.Name)} | {s.targets[0].id}
-    raise_stmts = [s for s in own_nodes(f.node) if isinstance(s, ast.Raise)]
-    never = None
-    for r in raise_stmts:
-        cs_ = conds(f, r)
-        if len(cs_) == 1 and cs_[0][1] and isinstance(cs_[0][0], ast.Name):
-            never = cs_[0][0].id
-    n = 0
-    for c in calls_in(f.node):
-        if isinstance(c.func, ast.Attribute) and c.func.attr in ("add", "append", "update", "extend", "remove", "discard", "pop", "clear"):
-            base = c.func.value
-            while isinstance(base, ast.Subscript):
-                base = base.value
-            b = dotted(base)
-            if b in acc or b == never:
-                if b not in ("converted_module_filters", never) and b not in ret_names and not any(b == x for x in acc):
+    ret = rets[0]
+    d = _full(co, parts[0])
+    if d.unknown:
+        res.undecide("C11.R2", base + "result", "the list of converted filters is not recognised: " + "; ".join(d.unknown[:2]), where(view, ret))
+        return
+    # ---- every element of the result is either the name filter of a matched (regex, module) pair or an unchanged non-regex filter
+    k1, k2, bad = [], [], []
+    for c in d.contribs:
+        cls_ = _ctor_class(fn, c.elt) if c.elt is not None else ""
+        if cls_.endswith(".ModuleNameFilter"):
+            k1.append(c)
+        elif isinstance(c.elt, ast.Name) and len(c.binders) == 1 and c.binders[0].root and dotted(c.binders[0].source) == modules_p and c.elt.id in c.binders[0].names:
+            k2.append(c)
+        else:
+            bad.append(f"the result also holds `{c.text()[:110]}`")
+    for r_ in d.removals:
+        bad.append(f"elements are taken out of the result again (`{show(r_.node, 70)}`)")
+    n1 = 0
+    scan_loops: list[ast.AST] = []
+    sites: dict[int, ast.AST] = {}  # loop inside a generator helper -> statement of the view that runs it
+    for c in k1:
+        m = matched_pair(fn, c, modules_p, arch_p, once_per_module=True)
+        key = repo.key(view, stmt_of(c.node)) + " [pattern x module]" if c.node is not None and parent(c.node) is not None else base + "name filter of a match"
+        ok = m.ok
+        why = m.why
+        if ok:
+            arg = _ctor_arg(fn, c.elt, "name")
+            if not (isinstance(arg, ast.Name) and arg.id == m.subject):
+                ok, why = False, f"the filter built for a match is `{show(c.elt)}`, not the name filter of the matched module `{m.subject}`"
+            for b in c.binders:
+                if isinstance(b.loop, (ast.For, ast.AsyncFor)) and b.loop not in scan_loops:
+                    scan_loops.append(b.loop)
+                    if b.site is not None:
+                        sites[id(b.loop)] = stmt_of(b.site)
+        n1 += 1
+        res.add("C11.R2", key, ok, "a name filter is added exactly for the pairs (regex filter, module) with re.match(pattern, module name)" if ok else f"`{show(c.node, 70)}`: {why}: a regex no longer stands for exactly the modules re.match(pattern, name) selects", where(view, c.node if c.node is not None else ret), kind="dominance")
+    early = [x for lp in scan_loops for x in ast.walk(lp) if isinstance(x, (ast.Break, ast.Return))]
+    res.add("C11.R2", base + "all modules scanned", bool(k1) and not early, "every module of the architecture is tested against every pattern" if k1 and not early else ("no name filter is ever added for a matching module" if not k1 else f"the scan can be left early (`{header(early[0])}`): a regex no longer stands for all modules it matches"), where(view, early[0] if early else view.node), kind="structural")
+    ok2 = bool(k2)
+    why2 = "the non-regex filters are not part of the result" if not k2 else ""
+    for c in k2:
+        lits = flatten(c.conds)
+        v = c.binders[0].names[0]
+        if not (len(lits) >= 1 and all(_is_regex_flag(l, v) and not pol for l, pol in lits)):
+            extra = [f"{'' if pol else 'not '}{show(l)}" for l, pol in lits if not (_is_regex_flag(l, v) and not pol)]
+            ok2, why2 = False, (f"filters are passed on under `{' and '.join(extra)}`" if extra else "filters are passed on whether or not they are regex filters")
+    if bad:
+        ok2, why2 = False, bad[0]
+    res.add("C11.R2", base + "result = converted + others", ok2, "result is the converted filters plus the non-regex filters unchanged" if ok2 else f"{why2}: the conversion result is not `name filters of all matches + other filters unchanged`", where(view, ret), kind="structural")
+    # ---- a regex that matches nothing raises before anything is returned
+    raises = [s for s in own_nodes(view.node) if isinstance(s, ast.Raise) and s.exc is not None and _raised_class(fn, s.exc).endswith(".ImpossibleMatch")]
+    ok, why = _no_match_raises(repo, view, fn, co, raises, ret, [sites.get(id(lp), lp) for lp in scan_loops], modules_p, arch_p)
+    if ok is None:
+        res.undecide("C11.R2", base + "no-match raises", why, where(view, raises[0] if raises else view.node))
+    else:
+        res.add("C11.R2", base + "no-match raises", ok, "a regex that matched nothing raises ImpossibleMatch before any result is returned" if ok else f"{why}: a regex matching nothing does not (only) raise ImpossibleMatch before the conversion result is returned", where(view, raises[0] if raises else view.node), kind="dominance")
+
+
+def _raised_class(fn: Fn, exc: ast.AST) -> str:
+    if isinstance(exc, ast.Call):
+        return _ctor_class(fn, exc)
+    t = fn.type_of(exc)
+    for m in (t[1] if t[0] == "union" else [t]):
+        if m[0] == "type":
+            return m[1]
+    return ""
+
+
+def _pattern_image(c, modules_p: str, extra_ok=None) -> tuple[bool, list]:
+    """Contribution `{f.identifier | f in modules, f is regex}`; returns (is it, remaining literals)."""
+    if len(c.binders) != 1 or not c.binders[0].root or dotted(c.binders[0].source) != modules_p or len(c.binders[0].names) != 1:
+        return False, []
+    v = c.binders[0].names[0]
+    if not _is_identifier_of(c.elt, v):
+        return False, []
+    rest, flag = [], False
+    for lit, pol in flatten(c.conds):
+        if _is_regex_flag(lit, v) and pol:
+            flag = True
+        else:
+            rest.append((lit, pol))
+    return flag, rest
+
+
+def _no_match_raises(repo: Repo, view: FuncInfo, fn: Fn, co: Collections, raises: list, ret: ast.AST, scan_loops: list, modules_p: str, arch_p: str):
+    if not raises:
+        return False, "ImpossibleMatch is never raised"
+    if len(raises) > 1:
+        return None, "several `raise ImpossibleMatch` statements"
+    r = raises[0]
+    if any(isinstance(a, (ast.For, ast.AsyncFor, ast.While)) for a in ancestors(r)):
+        return None, "ImpossibleMatch is raised inside the scan"
+    lits = flatten(fn.conds_all(r))
+    if len(lits) != 1 or not lits[0][1]:
+        return False, f"ImpossibleMatch is raised under `{' and '.join(('' if p else 'not ') + show(l) for l, p in lits) or 'no condition'}`, not exactly when the set of unmatched patterns is non-empty"
+    u = lits[0][0]
+    if isinstance(u, ast.Compare) and len(u.ops) == 1 and isinstance(u.left, ast.Call) and isinstance(u.left.func, ast.Name) and u.left.func.id == "len" and len(u.left.args) == 1 and isinstance(u.comparators[0], ast.Constant):
+        k = u.comparators[0].value
+        if (isinstance(u.ops[0], ast.Gt) and k == 0) or (isinstance(u.ops[0], ast.GtE) and k == 1):
+            u = u.left.args[0]
+        else:
+            return False, f"ImpossibleMatch is raised under `{show(u)}`, not whenever some pattern matched nothing"
+    if not (isinstance(u, ast.Name) or (isinstance(u, ast.Attribute) and isinstance(u.value, ast.Name) and u.value.id not in ("self", "cls"))):
+        return None, f"the condition `{show(u)}` of the raise is not the truthiness of a collection"
+    uname = dotted(u)
+    cfg = cfg_of(view)
+    guard_if = _if_of(r)
+
+    def tested_empty(node: ast.AST) -> bool:
+        """`node` only runs if the unmatched collection was tested and found empty (`if not U: return ...` / `if U: raise`)."""
+        for lit, pol in flatten(fn.conds_all(node)):
+            if isinstance(lit, ast.Compare) and len(lit.ops) == 1 and isinstance(lit.left, ast.Call) and isinstance(lit.left.func, ast.Name) and lit.left.func.id == "len" and len(lit.left.args) == 1 and isinstance(lit.comparators[0], ast.Constant):
+                k = lit.comparators[0].value
+                if ((isinstance(lit.ops[0], ast.Gt) and k == 0) or (isinstance(lit.ops[0], ast.GtE) and k == 1)) and not pol and dotted(lit.left.args[0]) == uname:
+                    return True
+                if isinstance(lit.ops[0], ast.Eq) and k == 0 and pol and dotted(lit.left.args[0]) == uname:
+                    return True
+            if not pol and dotted(lit) == uname:
+                return True
+        return False
+
+    if not cfg.dominates(guard_if, ret) and not tested_empty(ret):
+        return False, "the result can be returned without the unmatched-pattern test having been made"
+    if not cfg.dominates(guard_if, ret):
+        guard_if = next((a for a in [ret, *ancestors(ret)] if parent(a) is view.node), guard_if)  # the scan must precede this exit
+    def top(lp: ast.AST) -> ast.AST:
+        for a in ancestors(lp):
+            if isinstance(a, (ast.For, ast.AsyncFor, ast.While)):
+                lp = a
+        return lp
+
+    for lp in {id(top(x)): top(x) for x in scan_loops if x in cfg.g}.values():
+        if not cfg.dominates(lp, guard_if):
+            return False, "the unmatched-pattern test can be made before the scan"
+    du = _full(co, u)
+    if du.unknown:
+        return None, f"`{uname}` is not recognised: {du.unknown[0]}"
+    if not du.contribs:
+        return False, f"`{uname}` never holds a pattern"
+    # form A: all patterns, each taken out when (and only when) it matched
+    images = [_pattern_image(c, modules_p) for c in du.contribs]
+    if all(ok for ok, _ in images):
+        rests = [rest for _, rest in images]
+        if all(not rest for rest in rests):
+            rem = du.removals
+            if not rem:
+                return False, f"`{uname}` holds every pattern and none is ever taken out"
+            for x in rem:
+                if x.how == "difference":
+                    got = _matched_keys(fn, co, x.value, modules_p, arch_p)
+                    if got is not True:
+                        return got
                     continue
-                n += 1
-                g = guard_formula(f, c)
-                ok = implies(g, H)
-                res.add("C11.R2", repo.key(f, stmt_of(c)), ok, "changed only for a (pattern, module) pair that matches" if ok else f"`{norm(c, 80)}` is executed without the pattern test having matched: a regex resolves to modules by another criterion than `re.match(pattern, name)`", where(f, c), kind="dominance")
-    res.floor("C11.R2.acc", 3, n)
-    # ModuleNameFilter built from the matched module
-    ctor = [c for c in ast.walk(outer) if isinstance(c, ast.Call) and dotted(c.func) == "ModuleNameFilter"]
-    ok = len(ctor) == 1 and ((ctor[0].keywords and dotted(ctor[0].keywords[0].value) == mvar) or (ctor[0].args and dotted(ctor[0].args[0]) == mvar))
-    res.add("C11.R2", f"{f.relpath}::{f.qualname}::name filter of the matched module", ok, "a matching module m contributes ModuleNameFilter(name=m)" if ok else "the filter built for a match is not the name filter of the matched module", where(f, ctor[0] if ctor else f.node), kind="structural")
-    # never-matched raises before returning
-    ok = never is not None and len(raise_stmts) == 1 and cfg_of(f).dominates(_if_of(raise_stmts[0]), rets[0]) and "ImpossibleMatch" in norm(raise_stmts[0])
-    res.add("C11.R2", f"{f.relpath}::{f.qualname}::no-match raises", ok, "a regex that matched nothing raises ImpossibleMatch before any result is returned" if ok else "a regex matching nothing does not raise before the conversion result is returned", where(f, f.node), kind="dominance")
-    if never is not None:
-        init = [s for s in own_nodes(f.node) if isinstance(s, ast.Assign) and dotted(s.targets[0]) == never]
-        ok = len(init) == 1 and "identifier" in norm(init[0].value) and not any(isinstance(g, ast.comprehension) and g.ifs for g in ast.walk(init[0].value))
-        res.add("C11.R2", f"{f.relpath}::{f.qualname}::never-matched starts with all patterns", ok, "the unmatched set starts with every regex filter" if ok else "the unmatched set does not start with all regex filters", where(f, f.node), kind="structural")
-    # result = converted + unchanged others
-    txt = norm(rets[0].value.elts[0]) if isinstance(rets[0].value.elts[0], ast.Name) else ""
-    src = [s for s in own_nodes(f.node) if isinstance(s, ast.Assign) and dotted(s.targets[0]) == txt]
-    ok = len(src) == 1 and isinstance(src[0].value, ast.BinOp) and "other_modules" in norm(src[0].value) and "converted_module_filters" in norm(src[0].value)
-    res.add("C11.R2", f"{f.relpath}::{f.qualname}::result = converted + others", ok, "result is the converted filters plus the non-regex filters unchanged" if ok else "the conversion result is not `converted + other filters`", where(f, rets[0]), kind="structural")
-    # the test itself
-    nm = conv.methods.get("_name_matches_pattern")
-    if nm is None:
-        raise AnalysisError("ModuleNameConverter._name_matches_pattern not found")
-    res_calls = [repo.resolve_name(nm.module, c.func) for c in calls_in(nm.node)]
-    ok = "re.match" in res_calls and "re.fullmatch" not in res_calls and "re.search" not in res_calls
-    flags = [c for c in calls_in(nm.node) if repo.resolve_name(nm.module, c.func) in ("re.match", "re.compile") and (len(c.args) > 2 or (repo.resolve_name(nm.module, c.func) == "re.compile" and len(c.args) > 1) or c.keywords)]
-    res.add("C11.R2", f"{nm.relpath}::{nm.qualname}::re.match", ok and not flags, "a module matches when re.match(pattern, name) succeeds (start-anchored, no flags)" if ok and not flags else f"the pattern test uses {[r for r in res_calls if r and r.startswith('re.')]}{' with flags' if flags else ''} instead of re.match(pattern, name)", where(nm, nm.node), kind="structural")
+                if x.how not in ("remove", "discard"):
+                    return None, f"`{show(x.node, 60)}` on the unmatched set is not recognised"
+                m = matched_pair(fn, x, modules_p, arch_p, membership_of=uname)
+                if not m.ok:
+                    return False, f"a pattern is taken out of the unmatched set `{uname}` by `{show(x.node, 60)}`, but {m.why}"
+                if not _is_identifier_of(x.elt, m.pattern):
+                    return False, f"`{show(x.node, 60)}` takes `{show(x.elt)}` out of the unmatched set, not the pattern that matched"
+            return True, ""
+        # form B: patterns without an entry in a container keyed by matched patterns
+        if len(du.contribs) == 1 and len(rests[0]) == 1 and not du.removals:
+            lit, pol = rests[0][0]
+            v = du.contribs[0].binders[0].names[0]
+            if not pol and isinstance(lit, ast.Compare) and isinstance(lit.ops[0], ast.In) and _is_identifier_of(lit.left, v):
+                got = _matched_keys(fn, co, lit.comparators[0], modules_p, arch_p)
+                return (True, "") if got is True else got
+        # form D: patterns whose match counter stayed at zero
+        got = _unmatched_by_counter(fn, co, u, modules_p, arch_p)
+        if got is not None:
+            return got
+        # form C: per pattern, "no module matched" is a flag set in an inner scan or `not any(<test> for <module>)`
+        got = _unmatched_by_flag(fn, co, u, modules_p, arch_p)
+        if got is not None:
+            return got
+        extra = [f"{'' if p else 'not '}{show(l)}" for rest in rests for l, p in rest]
+        return False, f"the unmatched set `{uname}` does not start from all regex filters (only those with `{' and '.join(extra[:2])}`)"
+    got = _unmatched_by_counter(fn, co, u, modules_p, arch_p)
+    if got is not None:
+        return got
+    return None, f"the unmatched set `{uname}` is `{du.contribs[0].text()[:100]}` - not recognised"
+
+
+def _unmatched_by_counter(fn: Fn, co: Collections, u: ast.Name, modules_p: str, arch_p: str):
+    """`counts = dict.fromkeys(patterns, 0)` ... `counts[p] += 1` for every match ... `U = [p for p, n in counts.items() if n == 0]`.
+    Returns None if the shape is a different one."""
+    if not isinstance(u, ast.Name):
+        return None
+    raw = co.describe(u)
+    if raw.unknown or raw.removals or len(raw.contribs) != 1:
+        return None
+    c = raw.contribs[0]
+    if len(c.binders) != 1 or not isinstance(c.binders[0].target, (ast.Tuple, ast.List)) or len(c.binders[0].target.elts) != 2:
+        return None
+    src = c.binders[0].source
+    if not (isinstance(src, ast.Call) and isinstance(src.func, ast.Attribute) and src.func.attr == "items" and isinstance(src.func.value, ast.Name) and not src.args):
+        return None
+    k, v = c.binders[0].target.elts
+    if not (isinstance(k, ast.Name) and isinstance(v, ast.Name) and isinstance(c.elt, ast.Name) and c.elt.id == k.id):
+        return None
+    lits = flatten(c.conds)
+    zero = len(lits) == 1 and ((isinstance(lits[0][0], ast.Name) and lits[0][0].id == v.id and not lits[0][1]) or (lits[0][1] and isinstance(lits[0][0], ast.Compare) and isinstance(lits[0][0].ops[0], ast.Eq) and isinstance(lits[0][0].left, ast.Name) and lits[0][0].left.id == v.id and isinstance(lits[0][0].comparators[0], ast.Constant) and lits[0][0].comparators[0].value == 0))
+    if not zero:
+        return False, f"`{u.id}` is `{c.text()[:90]}`: not the patterns whose match counter is zero"
+    t = co.tree(src.func.value)
+    if t is None:
+        return None
+    dm = _full(co, t)
+    if dm.unknown or dm.removals:
+        return None, f"the counter `{src.func.value.id}` is not recognised"
+    seeds = [x for x in dm.contribs if x.how != "subscript-aug"]
+    incs = [x for x in dm.contribs if x.how == "subscript-aug"]
+    if not seeds or not incs:
+        return None
+    for x in seeds:
+        ok, more = _pattern_image(x, modules_p)
+        if not ok or more or not (isinstance(x.value, ast.Constant) and x.value.value == 0):
+            return False, f"the counter `{src.func.value.id}` does not start at zero for every regex filter (`{x.text()[:80]}`)"
+    for x in incs:
+        if not (isinstance(x.value, ast.Constant) and isinstance(x.value.value, int) and x.value.value > 0 and isinstance(x.node, ast.AugAssign) and isinstance(x.node.op, ast.Add)):
+            return None, f"`{show(x.node, 60)}` on the match counter is not recognised"
+        m = matched_pair(fn, x, modules_p, arch_p)
+        if not m.ok:
+            return False, f"the match counter is increased by `{show(x.node, 60)}`, but {m.why}"
+        if not _is_identifier_of(x.elt, m.pattern):
+            return False, f"`{show(x.node, 60)}` counts for `{show(x.elt)}`, not for the pattern that matched"
+    return True, ""
+
+
+def _unmatched_by_flag(fn: Fn, co: Collections, u: ast.Name, modules_p: str, arch_p: str):
+    """Unmatched set filled per pattern:  `for p in patterns: hit = False; for m in modules: if test: hit = True ...; if not hit:
+    U.add(p)`  or  `if not any(test(p, m) for m in modules): U.add(p)`.  Returns None if the shape is a different one."""
+    from .c11_coll import Binder, Contribution
+
+    if not isinstance(u, ast.Name):
+        return None
+    raw = co.describe(u)
+    if raw.unknown or raw.removals or len(raw.contribs) != 1:
+        return None
+    c = raw.contribs[0]
+    lits = flatten(c.conds)
+    neg = [(l, p) for l, p in lits if not p and (isinstance(l, ast.Name) or (isinstance(l, ast.Call) and isinstance(l.func, ast.Name) and l.func.id == "any" and len(l.args) == 1))]
+    if len(neg) != 1 or not c.binders or not isinstance(c.binders[-1].loop, (ast.For, ast.AsyncFor)):
+        return None
+    lit = neg[0][0]
+    rest = [(l, p) for l, p in lits if l is not lit]
+    # without the flag the set must hold every pattern
+    plain = co.normalise(type(raw)([Contribution(c.elt, None, list(c.binders), rest, c.context, c.node, "add", c.how, c.acc)]))
+    if plain.unknown or len(plain.contribs) != 1:
+        return None
+    ok, more = _pattern_image(plain.contribs[0], modules_p)
+    if not ok or more:
+        return False, f"the unmatched set `{u.id}` does not start from all regex filters"
+    outer = c.binders[-1].loop
+    events: list[Contribution] = []
+    if isinstance(lit, ast.Name):
+        t = co.tree(lit)
+        if t is None:
+            return None
+        defs = fn.reaching(lit.id, t)
+        sets = [d for d in defs if d.kind == "assign" and isinstance(d.value, ast.Constant) and d.value.value is True]
+        inits = [d for d in defs if d.kind == "assign" and isinstance(d.value, ast.Constant) and not d.value.value]
+        if len(sets) + len(inits) != len(defs) or not sets or len(inits) != 1:
+            return None
+        if outer not in list(ancestors(inits[0].stmt)) or any(outer not in list(ancestors(d.stmt)) for d in sets):
+            return None, f"the flag `{lit.id}` is not reset for every pattern"
+        for d in sets:
+            inner = [l for l in co._loops_between(d.stmt, [inits[0].stmt]) if isinstance(l, (ast.For, ast.AsyncFor))]
+            local, _ctx = co.local_conds(d.stmt, inner[0] if inner else inits[0].stmt)
+            if not inner:
+                local = [x for x in fn.conds_all(d.stmt) if (id(x[0]), x[1]) not in {(id(e), p) for e, p in fn.conds_all(inits[0].stmt)}]
+            events.append(Contribution(c.elt, None, list(c.binders) + [Binder(l.target, l.iter, l) for l in inner], rest + co.xc(local), [], d.stmt, "add", "flag"))
+    else:
+        g = lit.args[0]
+        if not isinstance(g, (ast.GeneratorExp, ast.ListComp)):
+            return None
+        sub = co._describe_copy(g)
+        for x in sub.contribs:
+            events.append(Contribution(c.elt, None, list(c.binders) + x.binders, rest + x.conds + [(x.elt, True)], [], c.node, "add", "any"))
+    d2 = co.normalise(type(raw)(events))
+    if d2.unknown or not d2.contribs:
+        return None
+    for e in d2.contribs:
+        m = matched_pair(fn, e, modules_p, arch_p)
+        if not m.ok:
+            return False, f"a pattern counts as matched at `{show(e.node, 60)}`, but {m.why}"
+        if not _is_identifier_of(e.elt, m.pattern):
+            return False, f"`{show(e.node, 60)}` marks `{show(e.elt)}`, not the pattern that matched"
+    return True, ""
+
+
+def _matched_keys(fn: Fn, co: Collections, m: ast.AST, modules_p: str, arch_p: str):
+    """True if the container `m` gets an entry / element `f.identifier` exactly for the matched pairs."""
+    ctx, orig = fn.ctx_of(m)
+    while isinstance(orig, ast.Call) and ((isinstance(orig.func, ast.Name) and orig.func.id in ("set", "list", "frozenset", "tuple") and len(orig.args) == 1) or (isinstance(orig.func, ast.Attribute) and orig.func.attr == "keys")):
+        orig = orig.args[0] if isinstance(orig.func, ast.Name) else orig.func.value
+    if ctx is not fn.fi or parent(orig) is None:
+        return None, f"`{show(m)}` is not recognised"
+    dm = _full(co, orig)
+    if dm.unknown or dm.removals:
+        return None, f"`{show(m)}` is not recognised"
+    if not dm.contribs:
+        return False, f"`{show(m)}` never gets an entry"
+    for c in dm.contribs:
+        mm = matched_pair(fn, c, modules_p, arch_p)
+        if not mm.ok:
+            return False, f"`{show(c.node, 60)}` records a pattern as matched, but {mm.why}"
+        if not _is_identifier_of(c.elt, mm.pattern):
+            return False, f"`{show(c.node, 60)}` records `{show(c.elt)}`, not the pattern that matched"
+    return True
 
 
 def _if_of(stmt: ast.AST) -> ast.AST:
     p = parent(stmt)
-    return p if isinstance(p, ast.If) else stmt
+    while isinstance(p, ast.If):
+        stmt = p
+        p = parent(p)
+    return stmt
+
+
+# --------------------------------------------------------------------------------------------------------------- C11.R3
+
+PARTIAL = "pytestarch.utils.partial_match_to_regex_converter"
+
+
+def _allow_r3(caller: FuncInfo, callee: FuncInfo) -> bool:
+    # the translation of a partial name is vocabulary of the rule (its correctness is C08's business)
+    return callee.module.name != PARTIAL
+
+
+def _ctor_class(fn: Fn, call: ast.AST) -> str:
+    """Fully qualified name of the repo class a call expression constructs ('' if it is not a constructor call)."""
+    if not isinstance(call, ast.Call):
+        return ""
+    t = fn.type_of(call.func)
+    for m in (t[1] if t[0] == "union" else [t]):
+        if m[0] == "type":
+            return m[1]
+    return ""
+
+
+def _ctor_arg(fn: Fn, call: ast.Call, field_name: str) -> ast.AST | None:
+    """The argument a dataclass-style constructor call gives to `field_name` (keyword, or positional by field order)."""
+    for k in call.keywords:
+        if k.arg == field_name:
+            return k.value
+    ci = fn.repo.classes.get(_ctor_class(fn, call))
+    if ci is None:
+        return None
+    init = fn.repo.lookup_method(ci, "__init__")
+    if init is not None:
+        names = init.param_names[1:]
+    else:
+        names = [a for c in reversed(fn.repo.mro(ci)) for a in c.ann_attrs]
+    if field_name in names and names.index(field_name) < len(call.args):
+        return call.args[names.index(field_name)]
+    return None
+
+
+def _builds_filter(fn: Fn, e: ast.AST) -> bool:
+    for c in ast.walk(e):
+        if isinstance(c, ast.Call):
+            ci = fn.repo.classes.get(_ctor_class(fn, c))
+            if ci is not None and any(x.name == "ModuleFilter" for x in fn.repo.mro(ci)):
+                return True
+    return False
+
+
+def _self_sinks(view: FuncInfo) -> list[tuple[ast.AST, ast.AST]]:
+    """(statement, stored value) for every store into state reachable from `self`."""
+    out = []
+    for n in own_nodes(view.node):
+        if isinstance(n, ast.Assign):
+            for t in n.targets:
+                if isinstance(t, (ast.Attribute, ast.Subscript)) and any(isinstance(x, ast.Name) and x.id == "self" for x in ast.walk(t)):
+                    out.append((n, n.value))
+        elif isinstance(n, ast.Call):
+            if isinstance(n.func, ast.Name) and n.func.id == "setattr" and len(n.args) == 3 and any(isinstance(x, ast.Name) and x.id == "self" for x in ast.walk(n.args[0])):
+                out.append((n, n.args[2]))
+            elif isinstance(n.func, ast.Attribute) and n.func.attr in ("extend", "append", "update", "add") and n.args and any(isinstance(x, ast.Name) and x.id == "self" for x in ast.walk(n.func.value)):
+                out.append((n, n.args[0]))
+    return out
+
+
+def _is_str_test(e: ast.AST, param: str) -> bool:
+    return isinstance(e, ast.Call) and isinstance(e.func, ast.Name) and e.func.id == "isinstance" and len(e.args) == 2 and isinstance(e.args[0], ast.Name) and e.args[0].id == param and isinstance(e.args[1], ast.Name) and e.args[1].id == "str"
+
+
+def _stored_filters(repo: Repo, res: Result, m: FuncInfo, what: str, translate: bool) -> None:
+    """The public method `m` of Rule stores {ModuleNameRegexFilter(name=t(n)) | n in names} (names = the parameter, or [parameter]
+    if it is a str), unfiltered, on every path; t = convert_partial_match_to_regex if `translate` else the identity."""
+    T = types_of(repo)
+    view = inline_view(repo, m, T, allow=_allow_r3)
+    fn = Fn(repo, view)
+    co = Collections(fn)
+    param = view.param_names[1]
+    key = f"{m.relpath}::{m.qualname}::{what} -> regex filter"
+    want = f"ModuleNameRegexFilter(name={'convert_partial_match_to_regex(<name>)' if translate else '<regex>'})"
+    relevant: list[tuple[ast.AST, list]] = []
+    unknown: list[str] = []
+    for stmt, value in _self_sinks(view):
+        d = co.normalise(co.describe(value))
+        mine = [c for c in d.contribs if any(param in names_loaded(b.source) for b in c.binders) or (c.elt is not None and (param in names_loaded(c.elt) or _builds_filter(fn, c.elt)))]
+        if mine:
+            relevant.append((stmt, d.contribs))
+            unknown += d.unknown
+            for r_ in d.removals:
+                unknown.append(f"elements are removed (`{norm(r_.node, 60)}`)")
+    if not relevant:
+        uses = [n for n in own_nodes(view.node) if isinstance(n, ast.Name) and n.id == param and isinstance(n.ctx, ast.Load)]
+        if not uses:
+            res.add("C11.R3", key, False, f"`{param}` is never used: the given {what} is dropped instead of becoming {want}", where(view, view.node), kind="flow")
+            return
+        res.undecide("C11.R3", key, f"no store of filters built from `{param}` into the rule's state was recognised", where(view, view.node))
+        return
+    if unknown:
+        res.undecide("C11.R3", key, "the list of filters is not recognised: " + "; ".join(unknown[:2]), where(view, view.node))
+        return
+    bad: list[str] = []
+    dropped: list[str] = []
+    for stmt, contribs in relevant:
+        for c in contribs:
+            if len(c.binders) > 1 or (c.binders and not (c.binders[0].root and dotted(c.binders[0].source) == param)):
+                bad.append(f"`{norm(stmt, 70)}` stores filters built from `{', '.join(norm(b.source, 40) for b in c.binders)}`, not from every element of `{param}`")
+                continue
+            if c.binders and len(c.binders[0].names) != 1:
+                bad.append(f"`{norm(stmt, 70)}`: elements of `{param}` are unpacked")
+                continue
+            var = c.binders[0].names[0] if c.binders else param
+            # the parameter is iterated unless it is a str, and wrapped into a one-element list only if it is one
+            for e, pol in flatten(list(c.conds) + [x for x in flatten(co.xc(c.context)) if _is_str_test(x[0], param)]):
+                if _is_str_test(e, param):
+                    if pol == bool(c.binders):
+                        dropped.append(f"`{param}` is {'iterated although it is a str' if c.binders else 'taken as a single name although it is not a str'} (`{'' if pol else 'not '}{show(e)}`)")
+                    continue
+                dropped.append(f"a filter is only created if `{'' if pol else 'not '}{show(e)}`")
+            elt = fn.expand(c.elt) if c.elt is not None else None  # factories that only delegate
+            ok = _ctor_class(fn, elt).endswith(".ModuleNameRegexFilter")
+            if ok:
+                arg = _ctor_arg(fn, elt, "name")
+                if translate:
+                    callee = fn.callee(arg) if isinstance(arg, ast.Call) else None
+                    ok = callee is not None and callee.module.name == PARTIAL and callee.name == "convert_partial_match_to_regex" and len(arg.args) + len(arg.keywords) == 1 and dotted([*arg.args, *[k.value for k in arg.keywords]][0]) == var
+                else:
+                    ok = isinstance(arg, ast.Name) and arg.id == var
+            if not ok:
+                bad.append(f"an element `{var}` of `{param}` becomes `{show(elt)}`, not {want.replace('<name>', var).replace('<regex>', var)}")
+    res.add("C11.R3", key, not bad, f"each given {what} becomes {want}" if not bad else bad[0] + (": the partial-name form is not the regex filter of its translation" if translate else ": the regex does not become a regex filter of itself"), where(view, view.node), kind="flow")
+    # every given name yields a filter, and the list reaches the rule's configuration on every path
+    first = next((c for _, cs in relevant for c in cs if c.node is not None and parent(c.node) is not None), None)
+    ctx = guard_formula(view, stmt_of(first.node)) if first is not None else None
+    stored = f_or([guard_formula(view, stmt) for stmt, _ in relevant])
+    if ctx is not None and not implies(ctx, stored):
+        dropped.append("the list of filters is not stored on every path")
+    res.add("C11.R3", f"{m.relpath}::{m.qualname}::one filter per {what}", not dropped, f"every given {what} yields exactly one filter, which is stored in the rule" if not dropped else dropped[0] + f": not every given {what} yields a filter", where(view, view.node), kind="structural")
 
 
 def run_r3(repo: Repo, res: Result) -> None:
     rule = repo.cls(RULE, "Rule")
     m = rule.methods.get("have_name_containing")
     if m is None:
-        res.observe("Rule.have_name_containing no longer exists (deprecated form removed): C11.R3 not applicable")
-        return
-    lambdas = [n for n in own_nodes(m.node) if isinstance(n, ast.Lambda)]
-    ok = False
-    for lam in lambdas:
-        b = lam.body
-        if isinstance(b, ast.Call) and dotted(b.func) == "ModuleNameRegexFilter":
-            arg = b.keywords[0].value if b.keywords else (b.args[0] if b.args else None)
-            if isinstance(arg, ast.Call) and dotted(arg.func) == "convert_partial_match_to_regex" and arg.args and dotted(arg.args[0]) == lam.args.args[0].arg:
-                ok = True
-    setm = [c for c in calls_in(m.node) if is_attr_call(c, "_set_modules")]
-    ok = ok and len(setm) == 1 and dotted(setm[0].args[0]) == m.param_names[1]
-    res.add("C11.R3", f"{m.relpath}::{m.qualname}::partial name -> regex filter", ok, "each partial name becomes ModuleNameRegexFilter(convert_partial_match_to_regex(name))" if ok else "the partial-name form is not the regex filter of its translation", where(m, m.node), kind="flow")
-    sm = rule.methods.get("_set_modules")
-    comp = [n for n in own_nodes(sm.node) if isinstance(n, ast.ListComp)]
-    ok = len(comp) == 1 and not comp[0].generators[0].ifs and dotted(comp[0].generators[0].iter) == sm.param_names[1] and isinstance(comp[0].elt, ast.Call) and dotted(comp[0].elt.func) == sm.param_names[2]
-    res.add("C11.R3", f"{sm.relpath}::{sm.qualname}::one filter per name", ok, "every given name yields exactly one filter" if ok else "not every given name yields a filter", where(sm, sm.node), kind="structural")
+        res.observe("Rule.have_name_containing no longer exists (deprecated form removed): C11.R3 not applicable to it")
+    else:
+        _stored_filters(repo, res, m, "partial name", True)
+    hm = rule.methods.get("have_name_matching")
+    if hm is None:
+        raise AnalysisError("Rule.have_name_matching not found")
+    _stored_filters(repo, res, hm, "regex", False)
 
 
-ITER_COPIES = ("set", "frozenset", "list", "tuple", "sorted")
+# --------------------------------------------------------------------------------------------------------------- C11.R4
+
+
+def _allow_r4(caller: FuncInfo, callee: FuncInfo) -> bool:
+    # the searches themselves stay calls: they are what the rule looks for
+    return callee.module.name != SEARCHES
+
+
+def _queries(repo: Repo) -> list[FuncInfo]:
+    """Non-abstract implementations of the three public graph queries of EvaluableArchitecture."""
+    base = repo.cls(EVAL_ARCH, "EvaluableArchitecture")
+    out: list[FuncInfo] = []
+    for name in (EXPLICIT_QUERY, *OTHER_QUERIES):
+        impls = [m for m in repo.implementations(base, name) if not _is_stub(m)]
+        if not impls:
+            raise AnalysisError(f"no implementation of the public query EvaluableArchitecture.{name} found")
+        out += impls
+    return out
+
+
+def _is_stub(m: FuncInfo) -> bool:
+    """Abstract method / protocol member: nothing but a docstring, `pass`, `...` or `raise NotImplementedError`."""
+    if m.is_abstract:
+        return True
+    for s in m.node.body:
+        if isinstance(s, ast.Pass) or (isinstance(s, ast.Expr) and isinstance(s.value, ast.Constant)):
+            continue
+        if isinstance(s, ast.Raise) and s.exc is not None and "NotImplementedError" in norm(s.exc):
+            continue
+        return False
+    return True
+
+
+def _strip_copies(e: ast.AST) -> ast.AST:
+    while isinstance(e, ast.Call) and isinstance(e.func, ast.Name) and e.func.id in ("list", "tuple", "sorted", "set", "frozenset") and len(e.args) == 1:
+        e = e.args[0]
+    return e
+
+
+def _value_candidates(fn: Fn, v: ast.AST) -> list[ast.AST]:
+    """The expressions a stored value may stand for: a local with several definitions yields one candidate per definition."""
+    ctx, orig = fn.ctx_of(v)
+    if isinstance(v, ast.Name) and ctx is fn.fi and isinstance(orig, ast.Name) and parent(orig) is not None:
+        defs = fn.reaching(orig.id, orig)
+        if len(defs) > 1 and all(d.kind == "assign" and d.value is not None for d in defs):
+            return [fn.expand(d.value) for d in defs]
+    return [v]
+
+
+def _carried(fn: Fn, co: Collections, loop: ast.For, acc: set[str]) -> set[str]:
+    """State that survives from one iteration of `loop` to a later one: re-bound names read before they are bound again,
+    containers changed in place in the body and read there, and any read of the result container itself."""
+    targets = {n.id for n in ast.walk(loop.target) if isinstance(n, ast.Name)}
+    inside = {id(n) for st in loop.body for n in ast.walk(st)}
+    changed = assigned_names(loop.body)
+    for name, evs in co.events().items():
+        if any(id(ev[2]) in inside for ev in evs):
+            changed.add(name)
+    exposed = upward_exposed(loop.body, targets)
+    out = (exposed & changed) - targets - acc
+    # the result container may only be written (under its own key), never read
+    for st in loop.body:
+        for n in ast.walk(st):
+            if isinstance(n, ast.Name) and n.id in acc and isinstance(n.ctx, ast.Load):
+                p = parent(n)
+                if isinstance(p, ast.Subscript) and isinstance(p.ctx, ast.Store) and p.value is n:
+                    continue
+                if isinstance(p, ast.Attribute) and p.attr in ("setdefault", "update") and isinstance(parent(p), ast.Call):
+                    continue
+                out.add(n.id)
+    return out
 
 
 def run_r4(repo: Repo, res: Result) -> None:
-    eg = repo.cls(EVAL_GRAPH, "EvaluableArchitectureGraph")
-    searches = {f.name for f in repo.module(SEARCHES).all_funcs}
+    T = types_of(repo)
     n = 0
-    for name in ("get_dependencies", "any_dependencies_from_dependents_to_modules_other_than_dependent_upons", "any_other_dependencies_on_dependent_upons_than_from_dependents"):
-        m = eg.methods.get(name)
-        if m is None:
-            raise AnalysisError(f"EvaluableArchitectureGraph.{name} not found")
-        params = m.param_names[1:3]
-        calls = [c for c in calls_in(m.node) if isinstance(c.func, ast.Name) and c.func.id in searches]
-        if len(calls) != 1:
-            raise AnalysisError(f"{m.fq}: expected exactly one search call")
-        call = calls[0]
-        lps = [l for l in loops_around(call, m.node) if isinstance(l, ast.For)]
-        if len(lps) != 1:
-            raise AnalysisError(f"{m.fq}: search call is not inside exactly one loop")
-        lp = lps[0]
-        # which locals are plain copies of the parameters (set(param) etc.)
-        copies: dict[str, str] = {p: p for p in params}
-        filtered: dict[str, ast.AST] = {}
-        for s in own_nodes(m.node):
-            if isinstance(s, ast.Assign) and isinstance(s.targets[0], ast.Name):
-                v = s.value
-                t = s.targets[0].id
-                if isinstance(v, ast.Call) and isinstance(v.func, ast.Name) and v.func.id in ITER_COPIES and len(v.args) == 1 and dotted(v.args[0]) in copies and not v.keywords and t not in filtered:
-                    if t in copies and copies[t] != copies[dotted(v.args[0])]:
-                        filtered[t] = s
-                    copies[t] = copies[dotted(v.args[0])]
-                elif t in copies or any(dotted(x) in copies for x in ast.walk(v) if isinstance(x, ast.Name)) and t.endswith("_set"):
-                    filtered[t] = s
-        loop_vars = [x.id for x in ast.walk(lp.target) if isinstance(x, ast.Name)]
-        it = lp.iter
-        iter_srcs = [dotted(a) for a in it.args] if isinstance(it, ast.Call) and dotted(it.func) == "product" else [dotted(it)]
+    for m in _queries(repo):
+        view = inline_view(repo, m, T, allow=_allow_r4)
+        fn = Fn(repo, view)
+        co = Collections(fn)
+        params = [p for p in view.param_names[1:]]
+        rets = [s for s in own_nodes(view.node) if isinstance(s, ast.Return) and s.value is not None]
+        if not rets:
+            raise AnalysisError(f"{m.fq}: returns nothing")
+        contribs, removals, unknown = [], [], []
+        accs: set[str] = set()
+        for r in rets:
+            if isinstance(r.value, ast.Name):
+                accs.add(r.value.id)
+            d = co.normalise(co.describe(r.value))
+            contribs += d.contribs
+            removals += d.removals
+            unknown += d.unknown
+        anchor = rets[0]
+        loops = []
+        for c in contribs:
+            for b in c.binders:
+                if isinstance(b.loop, (ast.For, ast.AsyncFor)) and b.loop not in loops:
+                    loops.append(b.loop)
+        key_node = loops[0] if loops else (contribs[0].node if contribs and contribs[0].node is not None else anchor)
+        base_key = repo.key(view, key_node)
+        if unknown or not contribs:
+            res.undecide("C11.R4", base_key, "the construction of the query result is not recognised: " + ("; ".join(unknown[:2]) or "no entry is ever stored"), where(view, key_node))
+            n += 4  # the query was found; its four obligations are undecided, not missing
+            continue
+        # ---- all keys: one entry per element of the given module collections, nothing filtered
+        bad: list[str] = []
+        unsure: list[str] = []
+        key_params: list[str] = []
+        for c in contribs:
+            for b in c.binders:
+                src = dotted(b.source)
+                if not b.root or src not in params:
+                    if isinstance(b.source, ast.Call) and not any(isinstance(x, ast.Name) and x.id == "self" for x in ast.walk(b.source)):
+                        unsure.append(f"the entries range over `{norm(b.source, 60)}`, which is not recognised as a copy of the given module collections")
+                    else:
+                        bad.append(f"the entries range over `{norm(b.source, 60)}`, which is not one of the given module collections")
+                elif src not in key_params:
+                    key_params.append(src)
+            if not c.binders:
+                bad.append(f"`{norm(c.node, 60)}` stores a single fixed entry")
+            for e, pol in c.source_conds:
+                bad.append(f"the keys are filtered by `{'' if pol else 'not '}{norm(e, 90)}`")
+        for r_ in removals:
+            bad.append(f"entries are removed again (`{norm(r_.node, 60)}`)")
         n += 1
-        bad = [s for s in iter_srcs if s not in copies or s in filtered]
+        if unsure and not bad:
+            res.undecide("C11.R4", base_key + " [all keys]", unsure[0], where(view, key_node))
         res.add(
             "C11.R4",
-            repo.key(m, lp) + " [all keys]",
+            base_key + " [all keys]",
             not bad,
-            f"one search per element of {[copies.get(s, s) for s in iter_srcs]} (duplicates removed only)" if not bad else f"the loop ranges over `{bad[0]}`, which is not the full set of the given modules (`{header(filtered[bad[0]]) if bad[0] in filtered else norm(it)}`): a subject/object of the batch gets no judgement of its own",
-            where(m, lp),
+            f"one entry per element of {key_params} (duplicates removed only)" if not bad else bad[0] + ": a subject/object of the batch gets no judgement of its own",
+            where(view, key_node),
             kind="structural",
         )
-        # arguments of the search: graph, loop variables, whole sets - nothing else
-        allowed = {"self._graph", *loop_vars, *[c for c in copies if c not in filtered]}
-        extra = [norm(a) for a in [*call.args, *[k.value for k in call.keywords]] if dotted(a) not in allowed]
+        # ---- independent searches: the value of a key is a search over the graph, the key and whole given collections only
+        bad = []
+        for c in contribs:
+            bnames = {x for b in c.binders for x in b.names}
+            if c.value is None:
+                bad.append(f"`{norm(c.node, 60)}` does not store a search result under a key")
+                continue
+            for cand in _value_candidates(fn, _strip_copies(c.value)):
+                call = _strip_copies(cand)
+                searches_in = [x for x in ast.walk(cand) if isinstance(x, ast.Call) and (lambda cs: bool(cs) and all(f.module.name == SEARCHES for f in cs))(fn.callees(x)[0])]
+                if not searches_in:
+                    bad.append(f"the value `{norm(cand, 80)}` stored for a key is not computed by a graph search for that key (it is derived from other state)")
+                    continue
+                if call is not searches_in[0] or len(searches_in) != 1:
+                    others = sorted({x.id for x in ast.walk(cand) if isinstance(x, ast.Name) and x.id in fn.mutated} - bnames)
+                    bad.append(f"the search result is post-processed (`{norm(cand, 80)}`)" + (f" using `{', '.join(others)}`" if others else ""))
+                    continue
+                for a in [*call.args, *[k.value for k in call.keywords]]:
+                    why = _own_key_and_whole_sets_only(fn, co, a, bnames, params, key_params)
+                    if why:
+                        bad.append(f"the search also receives `{show(a, 60)}`{why}")
         n += 1
         res.add(
             "C11.R4",
-            repo.key(m, stmt_of(call)) + " [independent searches]",
-            not extra,
-            "each search receives only the graph, its own key and the whole opposite set" if not extra else f"the search also receives `{', '.join(extra)}`: state is shared between the searches of one batch, so a batched rule is no longer the conjunction of the single rules",
-            where(m, call),
+            base_key + " [independent searches]",
+            not bad,
+            "each search receives only the graph, its own key and the whole opposite set" if not bad else bad[0] + (", so" if bad[0].endswith("batch") else ":") + " a batched rule is no longer the conjunction of the single rules",
+            where(view, key_node),
             kind="flow",
         )
-        carried = loop_carried(lp)
+        # ---- no state carried from one key to the next
+        carried: set[str] = set()
+        for lp in loops:
+            carried |= _carried(fn, co, lp, accs)
         n += 1
-        res.add("C11.R4", repo.key(m, lp) + " [no loop-carried state]", not carried, "no variable carries a value from one key to the next" if not carried else f"variable(s) {sorted(carried)} carry values between iterations", where(m, lp), kind="flow")
-        # result keyed by the loop key(s)
-        stores = [s for s in ast.walk(lp) if isinstance(s, ast.Assign) and isinstance(s.targets[0], ast.Subscript)]
-        ok = len(stores) == 1 and all(v in norm(stores[0].targets[0].slice) for v in loop_vars) and not conds(m, stores[0])[len(conds(m, lp)):]
+        res.add("C11.R4", base_key + " [no loop-carried state]", not carried, "no variable carries a value from one key to the next" if not carried else f"variable(s) {sorted(carried)} carry values between the iterations for different keys", where(view, key_node), kind="flow")
+        # ---- result per key
+        bad = []
+        for c in contribs:
+            bnames = {x for b in c.binders for x in b.names}
+            missing = sorted(bnames - names_loaded(c.elt)) if c.elt is not None else sorted(bnames)
+            if missing:
+                bad.append(f"the key `{norm(c.elt, 60) if c.elt is not None else '?'}` does not identify `{', '.join(missing)}`")
+            for e, pol in c.own_conds:
+                bad.append(f"the entry is stored only if `{'' if pol else 'not '}{norm(e, 80)}`")
         n += 1
-        res.add("C11.R4", repo.key(m, lp) + " [result per key]", ok, "the result is stored under the key of the iteration, unconditionally" if ok else "the result of a search is not stored under its own key for every iteration", where(m, lp), kind="structural")
+        res.add("C11.R4", base_key + " [result per key]", not bad, "the result is stored under the key of the iteration, unconditionally" if not bad else bad[0] + ": the result of a search is not stored under its own key for every key", where(view, key_node), kind="structural")
     res.floor("C11.R4", 12, n)
+
+
+def _own_key_and_whole_sets_only(fn: Fn, co: Collections, a: ast.AST, bnames: set[str], params: list[str], key_params: list[str], depth: int = 0) -> str:
+    """'' if the argument is computed from the key of this search, the graph and whole given collections of the *other* side only
+    (then the search for a key is the same in a batch and in the single rule); else the reason."""
+    if isinstance(a, ast.Starred):
+        a = a.value
+    if isinstance(a, ast.Name) and a.id in bnames:
+        return ""
+    if isinstance(a, ast.Constant):
+        return ""
+    if isinstance(a, ast.Attribute) and _is_graph(fn, a):
+        return ""  # the graph itself (read-only for the searches)
+    da = co.normalise(co._describe_copy(a))
+    if not da.unknown and not da.removals and len(da.contribs) == 1 and not da.contribs[0].conds and len(da.contribs[0].binders) == 1 and da.contribs[0].binders[0].root and isinstance(da.contribs[0].elt, ast.Name) and da.contribs[0].elt.id in da.contribs[0].binders[0].names:
+        src = dotted(da.contribs[0].binders[0].source)
+        if src in params:
+            if src in key_params and len(key_params) < len(params):
+                return f" - the whole collection `{src}` whose elements are the keys: the result for a key depends on which other keys are in the batch"
+            return ""
+    if depth < 3:
+        if isinstance(a, (ast.Set, ast.Tuple, ast.List)):
+            for x in a.elts:
+                w = _own_key_and_whole_sets_only(fn, co, x, bnames, params, key_params, depth + 1)
+                if w:
+                    return w
+            return ""
+        if isinstance(a, ast.BinOp) and isinstance(a.op, (ast.Sub, ast.BitOr, ast.BitAnd, ast.Add)):
+            return _own_key_and_whole_sets_only(fn, co, a.left, bnames, params, key_params, depth + 1) or _own_key_and_whole_sets_only(fn, co, a.right, bnames, params, key_params, depth + 1)
+        if isinstance(a, ast.Call) and isinstance(a.func, ast.Attribute) and a.func.attr in ("difference", "union", "intersection", "copy") and not a.keywords:
+            for x in [a.func.value, *a.args]:
+                w = _own_key_and_whole_sets_only(fn, co, x, bnames, params, key_params, depth + 1)
+                if w:
+                    return w
+            return ""
+    return ": state is shared between the searches of one batch"
+
+
+def _is_graph(fn: Fn, a: ast.AST) -> bool:
+    t = fn.type_of(a)
+    for mm in (t[1] if t[0] == "union" else [t]):
+        if mm[0] == "cls":
+            ci = fn.repo.classes.get(mm[1])
+            if ci is not None and any(c.name == "AbstractGraph" for c in fn.repo.mro(ci)):
+                return True
+    return False
 
 
 def run(repo: Repo) -> Result:
     res = Result("C11")
     res.explanation = (
         "Relational argument over the code: a compact rule (regex / partial name / batch) and its expansion drive the same pipeline with the "
-        "same arguments. (R1) the regex conversion unconditionally dominates every query and everything downstream reads the converted "
-        "requirement; (R2) a regex contributes exactly the name filters of all modules for which re.match(pattern, name) succeeds, accumulators "
-        "change only under that test, and an unmatched regex raises before a result exists; (R3) partial names become the regex filter of their "
-        "translation; (R4) the three queries run one independent search per key over the full (de-duplicated) key set and store it under that "
-        "key, so a batch is the conjunction of the single rules. Together with purity (C15) identical inputs give identical verdicts."
+        "same arguments. Each rule analyses the inlined view of a public entry point (private helpers, local names and loop idioms play no "
+        "role). (R1) in the matcher method that Rule.assert_applies runs, ModuleNameConverter.convert is executed unconditionally before every "
+        "graph query, against the evaluable being queried, on the requirement given to the constructor, for both sides; a provenance analysis "
+        "shows that every query argument and every requirement read by a detector / message generator derives from this evaluation's "
+        "conversion and never from state that existed before it; (R2) the conversion result is described as a set comprehension and must be "
+        "{ModuleNameFilter(m) | m in arch.modules, f regex filter, re.match(f.identifier, m)} plus the non-regex filters unchanged, the scan has "
+        "no early exit, and ImpossibleMatch is raised exactly when the set of never-matched patterns is non-empty, before any return; (R3) "
+        "have_name_containing stores {ModuleNameRegexFilter(convert_partial_match_to_regex(n)) | n in names}, unfiltered, on every path; (R4) "
+        "each of the three public queries stores one graph search per element of the given collections, computed from the graph, its own key "
+        "and whole given collections only, with no state carried between keys, so a batch is the conjunction of the single rules. Together with "
+        "purity (C15) identical inputs give identical verdicts."
     )
-    res.not_decided = "regexes matching a module and its sub modules (documented caveat); equality of verdicts is argued from identical pipelines, not observed."
-    res.trusted_base = ["re.match semantics", "C15 (evaluation is a function of its arguments)", "engine CFG/guards"]
+    res.not_decided = "regexes matching a module and its sub modules (documented caveat); equality of verdicts is argued from identical pipelines, not observed; the translation convert_partial_match_to_regex itself is C08's."
+    res.trusted_base = ["re.match semantics", "C15 (evaluation is a function of its arguments)", "engine CFG/guards/inline views", "engine/rules/c11_lib.py, c11_coll.py, c11_prov.py (def-use, collection descriptions, provenance)"]
     run_r1(repo, res)
     run_r2(repo, res)
     run_r3(repo, res)
